@@ -127,8 +127,11 @@ def handle (j : Json) : IO Unit := do
     let bk := jint (jget impl "backend")
     let o := parseHttpObs impl
     -- model: the registry resolves either the exact listers or the alias/case listers; accept either
+    -- documents written before the length was recorded are short
+    let docLen := jnat (jget j "doc_len")
+    let visible := Olla.Model.Routing.modelVisible docLen
     let agreeWith := fun (ls : List Ep) =>
-      let out := Olla.Model.Routing.handle active h typ fb rom healthy ls
+      let out := Olla.Model.Routing.handleDoc active h typ fb rom healthy ls docLen
       -- a rejection may or may not describe itself in X-Olla-Routing-* headers (the property does not say); if it
       -- does, the decision it names must be the rejection (the reason text is free)
       (if out.forwardTo.isEmpty then o.backend.isNone && o.status == out.status &&
@@ -139,12 +142,13 @@ def handle (j : Json) : IO Unit := do
     let agree := jstr (jget impl "err") == "" && jnat (jget impl "backend_requests") ≤ 1 && (agreeWith lo || agreeWith up)
     let out := Olla.Model.Routing.handle active h typ fb rom healthy up
     let branch := s!"http.{routeName}/{factoryName typ}/{fb}/" ++
-      (if out.forwardTo.isEmpty then s!"reject{out.status}" else "forward")
+      (if out.forwardTo.isEmpty then s!"reject{out.status}" else "forward") ++ (if visible then "" else "/long-document")
     let mj := Json.mkObj [("forwardTo", toJson out.forwardTo), ("status", toJson out.status)]
     match httpViolation2 typ fb rom healthy lo up o with
     | none => emit case agree true branch "" "" mj
     | some sig =>
       let sig' :=
+        if !visible then "long-document-bypasses-model-routing" else
         if sig == "reject-status-wrong" && o.backend.isNone && (o.status == 502 || (h == .provider && o.status == 404)) then
           "handler-drops-routing-status"
         else if sig == "reject-status-wrong" && factoryName typ == strategyDiscovery && up.isEmpty && o.status == 503 then
@@ -152,7 +156,7 @@ def handle (j : Json) : IO Unit := do
         else if sig == "fallback-all-not-healthy-set" && o.backend.isNone then "configured-strategy-ignored"
         else sig
       emit case agree false branch sig'
-        s!"{routeName} handler, configured {typ}/{fb} refresh_on_miss={rom}, model={model} listed-by={up} healthy={healthy}: client status {o.status}, backend {bk}, X-Olla-Routing-Strategy={o.hStrategy} Decision={o.hDecision} ({sig})"
+        s!"{routeName} handler, configured {typ}/{fb} refresh_on_miss={rom}, model={model} listed-by={up} healthy={healthy}, document of {docLen} bytes: client status {o.status}, backend {bk}, X-Olla-Routing-Strategy={o.hStrategy} Decision={o.hDecision} ({sig})"
         mj
   | _ => emit case false true "unknown-kind" "" s!"unknown kind {kind}"
 
